@@ -390,23 +390,18 @@ def main(argv):
     known_hit = {}
     nonfailing_mismatch = []
 
-    # 1. regenerate the model parts that come from the source
+    # 1. regenerate the model parts that come from the source, 2. proofs -- one critical
+    #    section: the generated files and the .vo files built from them must not be
+    #    interleaved with a concurrent check working on another copy of the crate
     import gen
-    with Lock():
-        gen.gen_corr()
-        gen.gen_project()
-        rg = regen()
-    ev["regen"] = rg
-    for g in rg.get("errors", []):
-        if P.get("regen_files") and g.get("file") in P["regen_files"]:
-            problems.append({"kind": "regen", "what": g})
-
-    # 2. proofs
     hits = forbidden_scan()
     if hits:
         problems.append({"kind": "forbidden", "what": hits[:20]})
     targets = ["properties/%s.vo" % pid, "extract/Extract.vo"] + P.get("extra_vo", [])
     with Lock():
+        gen.gen_corr()
+        gen.gen_project()
+        rg = regen()
         ok, broken = coq_build(targets, P.get("coq_timeout", 1500))
         prop_v = os.path.join(COQ, "properties", "%s.v" % pid)
         names = theorem_names(prop_v) if os.path.exists(prop_v) else []
@@ -415,6 +410,18 @@ def main(argv):
         else:
             assum, aerr = {n: "missing" for n in names}, "build failed"
         exe_model, merr = model_build() if os.path.exists(os.path.join(COQ, "model.ml")) else (None, "no model.ml")
+        if exe_model is not None:
+            # private copy: a concurrent check may rebuild the shared runner
+            priv = os.path.join(workdir, "model_run")
+            with open(exe_model, "rb") as a, open(priv, "wb") as bfile:
+                bfile.write(a.read())
+            os.chmod(priv, 0o755)
+            exe_model = priv
+    ev["regen"] = rg
+    for g in rg.get("errors", []):
+        if not P.get("regen_files") or g.get("file") in P["regen_files"] or g.get("file") == "*":
+            if P.get("regen_files"):
+                problems.append({"kind": "regen", "what": g})
     allow = set(P.get("axiom_allowlist", []))
     discharged = 0
     for n in names:
